@@ -135,37 +135,52 @@ theorem sim_threshold_call_site :
 /-! ## (b) certchain's committee rule -/
 
 open F3.Inputs F3.GoInt in
-/-- the source of `certchain.GetCommittee`: the bootstrap tipset inside the look-back window,
-otherwise the head of the certificate at the regenerated look-back index (certificate `k` of the
-generator is instance `initial + k`) -/
+/-- the source of `certchain.GetCommittee`, both pieces regenerated from `certchain/certchain.go`: the
+bootstrap tipset when the regenerated guard holds, otherwise the head of the certificate at the
+regenerated look-back index (certificate `k` of the generator is instance `initial + k`) -/
 def certchainSource (initial lookback inst : Nat) : Source :=
-  if inst < initial + lookback then .bootstrap
+  if F3.Gen.Inputs.certchainBootstrapGuard lookback initial inst then .bootstrap
   else .certHead (initial + (F3.Gen.Inputs.certchainLookbackIndex lookback initial inst).toNat)
 
 open F3.Inputs F3.GoInt in
-/-- **certchain uses the node's rule**: for every manifest (initial instance, look-back) and every
-instance in the uint64 range, the certificate-chain generator takes the committee from the same
-place as a node does — the bootstrap tipset during the look-back window, afterwards the head of the
-certificate finalized `lookback` instances earlier. -/
-theorem certchain_rule_eq_node_rule (initial lookback inst : Nat) (h : inst < 2 ^ 64) :
-    certchainSource initial lookback inst = nodeSource initial lookback inst := by
-  unfold certchainSource nodeSource
-  by_cases hb : inst < initial + lookback
-  · simp [hb]
-  · simp only [hb, ite_false]
-    have h1 : (lookback : Int) ≤ inst := by omega
-    have h2 : (initial : Int) ≤ (inst : Int) - lookback := by omega
-    have hi : (inst : Int) < 2 ^ 64 := by exact_mod_cast h
-    have e1 : u64 ((inst : Int) - lookback) = (inst : Int) - lookback := by
-      unfold u64; exact Int.emod_eq_of_lt (by omega) (by omega)
-    have e2 : u64 ((inst : Int) - lookback - initial) = (inst : Int) - lookback - initial := by
-      unfold u64; exact Int.emod_eq_of_lt (by omega) (by omega)
-    have : F3.Gen.Inputs.certchainLookbackIndex lookback initial inst = (inst : Int) - lookback - initial := by
-      unfold F3.Gen.Inputs.certchainLookbackIndex
-      simp only [e1, e2]
-    rw [this]
-    congr 1
-    omega
+/-- the source of the node's `gpbftInputs.GetCommittee`, both pieces regenerated from
+`consensus_inputs.go`: the guard of the bootstrap branch and the instance passed to the second
+`h.certStore.Get` (the one whose certificate's head gives the power table) -/
+def nodeSourceGen (initial lookback inst : Nat) : Source :=
+  if F3.Gen.Inputs.nodeBootstrapGuard lookback initial inst then .bootstrap
+  else .certHead (F3.Gen.Inputs.nodeLookbackCertInstance lookback inst).toNat
+
+open F3.Inputs F3.GoInt in
+/-- **certchain uses the node's rule** — both sides regenerated from the source on this run: for every
+manifest (initial instance, look-back; their sum a `uint64`) and every instance in the `uint64` range,
+the certificate-chain generator takes the committee from the same place as a node does — the bootstrap
+tipset during the look-back window, afterwards the head of the certificate finalized `lookback`
+instances earlier. An edit of either `GetCommittee` that changes its rule breaks this equality. -/
+theorem certchain_rule_eq_node_rule (initial lookback inst : Nat) (h : inst < 2 ^ 64)
+    (hm : initial + lookback < 2 ^ 64) :
+    certchainSource initial lookback inst = nodeSourceGen initial lookback inst := by
+  unfold certchainSource nodeSourceGen F3.Gen.Inputs.certchainBootstrapGuard F3.Gen.Inputs.nodeBootstrapGuard
+    F3.Gen.Inputs.certchainLookbackIndex F3.Gen.Inputs.nodeLookbackCertInstance
+  simp only [decide_eq_true_eq]
+  repeat' split
+  all_goals (first | rfl | (simp only [u64] at *; first | (exfalso; omega) | (congr 1; omega)))
+
+open F3.Inputs F3.GoInt in
+/-- **the model's node rule is the source's**: the hand-written `nodeSource` (`F3/Model/Inputs.lean`)
+equals the rule assembled from the regenerated guard and `Get` argument, on the whole `uint64` range -/
+theorem node_rule_is_regenerated (initial lookback inst : Nat) (h : inst < 2 ^ 64)
+    (hm : initial + lookback < 2 ^ 64) :
+    nodeSource initial lookback inst = nodeSourceGen initial lookback inst := by
+  unfold nodeSource nodeSourceGen F3.Gen.Inputs.nodeBootstrapGuard F3.Gen.Inputs.nodeLookbackCertInstance
+  simp only [decide_eq_true_eq]
+  repeat' split
+  all_goals (first | rfl | (simp only [u64] at *; first | (exfalso; omega) | (congr 1; omega)))
+
+open F3.Inputs in
+/-- the instance of the certificate the node reads during bootstrap, as it stands in the source:
+`h.manifest.InitialInstance` -/
+theorem node_bootstrap_cert_is_initial (initial : Int) :
+    F3.Gen.Inputs.nodeBootstrapCertInstance initial = initial := rfl
 
 open F3.Inputs in
 /-- the look-back index the driver's certchain model executes is the expression regenerated from
@@ -200,6 +215,7 @@ example :
     (exec s0 [.notify 0 (d [7, 8]), .notify 1 (d [7, 9]), .loopHead [] [0, 1] [32767, 32767]]).failed = true := by
   decide
 
-example : certchainSource 50 10 63 = .certHead 53 ∧ certchainSource 50 10 59 = .bootstrap := by decide
+example : certchainSource 50 10 63 = .certHead 53 ∧ certchainSource 50 10 59 = .bootstrap ∧
+    nodeSourceGen 50 10 63 = .certHead 53 ∧ nodeSourceGen 50 10 59 = .bootstrap ∧ nodeSourceGen 50 10 60 = .certHead 50 := by decide
 
 end F3.Props.C19
